@@ -175,4 +175,26 @@ def resampleWithPrior [Transc α] [Add α] [Sub α] [Mul α] [Div α] [Neg α] [
   ({ merged with logw := merged.logw.map (fun _ => -(Transc.log (N : α))) },
    List.replicate k (-1) ++ r.2.map (fun p => p + (k : Int)))
 
+/-! ### Configuration of a `ResamplingWithPrior` object under move construction / move assignment -/
+
+/-- what a `ResamplingWithPrior` object is configured with: `prior_ratio_`, the generator (as the
+    stream of its future draws) and whether it owns an initialisation model -/
+structure RwpObj (α : Type) where
+  ratio : α
+  rng : List α
+  hasInit : Bool
+
+/-- `ResamplingWithPrior(ResamplingWithPrior&&)`: generator, initialisation model and `prior_ratio_`
+    go to the new object; the moved-from object is left with ratio `0.5` and no model.
+    Returns (new object, moved-from object). -/
+def RwpObj.moveConstruct [OfScientific α] (src : RwpObj α) : RwpObj α × RwpObj α :=
+  ({ ratio := src.ratio, rng := src.rng, hasInit := src.hasInit },
+   { ratio := 0.5, rng := src.rng, hasInit := false })
+
+/-- `ResamplingWithPrior::operator=(ResamplingWithPrior&&)` **as coded**: the generator
+    (`Resampling::operator=`) and the initialisation model are moved, `prior_ratio_` is not assigned —
+    the target keeps the ratio it had. -/
+def RwpObj.moveAssign (tgt src : RwpObj α) : RwpObj α :=
+  { ratio := tgt.ratio, rng := src.rng, hasInit := src.hasInit }
+
 end BFL.PF
